@@ -39,6 +39,71 @@ func runC07(c *Ctx) {
 	c.locksetRows("C07.accum-lock", func(r lockRow) bool { return r.Pkg == "dnsdata" && r.Type == "Accum" })
 	c07BatchRebind(c)
 	c07Buckets(c)
+	c07Semaphore(c)
+}
+
+// c07Semaphore: a limiter channel whose capacity is an option value is only made when that value is positive.
+func c07Semaphore(c *Ctx) {
+	rule := "C07.semaphore"
+	c.Rule(rule, "A2: in the compile pipelines a channel of struct{} (a semaphore) whose capacity is not a constant is created only under a test that the capacity is positive (or from a normalised value): a zero-capacity semaphore that is acquired before its releaser is started blocks the compiler forever for that setting")
+	n := 0
+	for _, t := range [][2]string{{"dnsdata/rdb", "compileBatches"}, {"dnsdata/rdb", "compileBuilder"}, {"dnsdata", "parse"}} {
+		for _, fn := range withClosures(c.Func(t[0], t[1])) {
+			for _, b := range fn.Blocks {
+				for _, in := range b.Instrs {
+					mc, ok := in.(*ssa.MakeChan)
+					if !ok {
+						continue
+					}
+					ch, isCh := mc.Type().Underlying().(*types.Chan)
+					if !isCh {
+						continue
+					}
+					if st, isSt := ch.Elem().Underlying().(*types.Struct); !isSt || st.NumFields() != 0 {
+						continue
+					}
+					if _, isConst := constInt(mc.Size); isConst {
+						continue
+					}
+					n++
+					c.Examined(fn)
+					ok = hasFact(b, func(v ssa.Value, truth bool) bool {
+						cmp, isB := v.(*ssa.BinOp)
+						if !isB || !sameValue(cmp.X, mc.Size) && !sameSources(cmp.X, mc.Size) {
+							return false
+						}
+						k, isK := constInt(cmp.Y)
+						if !isK {
+							return false
+						}
+						switch cmp.Op {
+						case token.GTR:
+							return truth && k >= 0
+						case token.GEQ:
+							return truth && k >= 1
+						case token.LEQ:
+							return !truth && k >= 0
+						case token.LSS:
+							return !truth && k >= 1
+						}
+						return false
+					})
+					if !ok {
+						// normalised: the size is a phi/local one of whose sources is a positive constant
+						for s := range sourcesOf(mc.Size) {
+							if k, isK := constInt(s); isK && k >= 1 {
+								ok = true
+							}
+						}
+					}
+					c.Check(rule, stableFnName(fn)+"|semaphore-capacity-positive", ok, mc.Pos(), "the limiter is only created for a positive limit")
+				}
+			}
+		}
+	}
+	if n == 0 {
+		c.add(rule, "semaphores|none", Discharged, token.NoPos, false, "no variable-capacity semaphore in the compile pipelines")
+	}
 }
 
 func runC08(c *Ctx) {
@@ -117,10 +182,52 @@ func errAllowed(c *Ctx, call ssa.CallInstruction) (string, bool) {
 	return "", false
 }
 
-// errAllowFn: closures whose dropped error is accounted for elsewhere; one named symbol, one reason.
-var errAllowFn = map[string]string{
-	"(*dnsdata.SubnetRanger).MarshalMap$2": "the goroutine only logs: the enclosing function waits on the same errgroup again and returns that error",
-	"dnsdata/rdb.compileBatches$1":        "deferred close handler of the output database: an I/O fault at close time, outside the property's quantifier (the handler's assignment to the local err cannot reach the unnamed results)",
+// closureRole tells how a function literal is run by its parent: "defer", "go", or "".
+func closureRole(fn *ssa.Function) string {
+	if fn.Parent() == nil {
+		return ""
+	}
+	for _, b := range fn.Parent().Blocks {
+		for _, in := range b.Instrs {
+			switch x := in.(type) {
+			case *ssa.Defer:
+				if mc, ok := x.Call.Value.(*ssa.MakeClosure); ok && mc.Fn == fn {
+					return "defer"
+				}
+			case *ssa.Go:
+				if mc, ok := x.Call.Value.(*ssa.MakeClosure); ok && mc.Fn == fn {
+					return "go"
+				}
+			}
+		}
+	}
+	return ""
+}
+
+// errAllowedInClosure: structural exemptions for calls inside function literals.
+func errAllowedInClosure(fn *ssa.Function, ci ssa.CallInstruction) (string, bool) {
+	f := calleeOf(ci.Common())
+	if f == nil {
+		return "", false
+	}
+	switch closureRole(fn) {
+	case "defer":
+		if f.Name() == "Close" {
+			return "Close of the output inside a deferred handler: an I/O fault at close time, outside the property's quantifier", true
+		}
+	case "go":
+		if f.Pkg() != nil && f.Pkg().Path() == "golang.org/x/sync/errgroup" && f.Name() == "Wait" {
+			// fine if the parent waits on the same group again and uses that error
+			for _, pc := range callInstrs(fn.Parent()) {
+				if g := calleeOf(pc.Common()); g == f {
+					if v, ok := pc.(ssa.Value); ok && v.Referrers() != nil && !onlyDebugRefs(v) {
+						return "the goroutine only logs: the enclosing function waits on the same errgroup again and uses that error", true
+					}
+				}
+			}
+		}
+	}
+	return "", false
 }
 
 func c07Errors(c *Ctx, rule string, funcs [][2]string) {
@@ -133,10 +240,6 @@ func c07Errors(c *Ctx, rule string, funcs [][2]string) {
 		}
 		for _, fn := range withClosures(root) {
 			c.Examined(fn)
-			if why, ok := errAllowFn[fnName(fn)]; ok {
-				c.add(rule, fnName(fn), Discharged, fn.Pos(), false, "exempt: "+why)
-				continue
-			}
 			// can this function report an error at all?
 			res := fn.Signature.Results()
 			hasErr := false
@@ -177,6 +280,9 @@ func c07Errors(c *Ctx, rule string, funcs [][2]string) {
 				}
 				n++
 				if _, ok := errAllowed(c, ci); ok {
+					continue
+				}
+				if _, ok := errAllowedInClosure(fn, ci); ok {
 					continue
 				}
 				if _, isDefer := ci.(*ssa.Defer); isDefer {
@@ -236,7 +342,7 @@ func c07Errors(c *Ctx, rule string, funcs [][2]string) {
 			if n == 0 {
 				continue
 			}
-			c.Check(rule, fnName(fn), len(drops) == 0, fn.Pos(), fmt.Sprintf("%d error-returning calls examined; drops: %v", n, drops))
+			c.Check(rule, stableFnName(fn), len(drops) == 0, fn.Pos(), fmt.Sprintf("%d error-returning calls examined; drops: %v", n, drops))
 		}
 	}
 	c.Floor(rule, 6)
@@ -443,7 +549,7 @@ func c07NoDrop(c *Ctx) {
 					}
 				}
 			}
-			c.Check(rule, fnName(cl)+"|converted-records-forwarded", ok, cl.Pos(), "what the codec produced for a line is sent on every success path of the per-line callback")
+			c.Check(rule, stableFnName(cl)+"|converted-records-forwarded", ok, cl.Pos(), "what the codec produced for a line is sent on every success path of the per-line callback")
 		}
 	}
 	// (store)
@@ -486,7 +592,7 @@ func c07NoDrop(c *Ctx) {
 				}
 			}
 			skip := len(sinks) == 0 || bodyCanSkip(l, sinks, nil)
-			c.Check(rule, fmt.Sprintf("%s|record-loop#%d|every-record-reaches-the-sink", fnName(fn), i), !skip, l.Header.Instrs[0].Pos(), "no record of a received slice is filtered out, skipped or lost on the way to the database writer")
+			c.Check(rule, fmt.Sprintf("%s|record-loop#%d|every-record-reaches-the-sink", stableFnName(fn), i), !skip, l.Header.Instrs[0].Pos(), "no record of a received slice is filtered out, skipped or lost on the way to the database writer")
 		}
 	}
 	for _, t := range [][2]string{{"dnsdata/rdb", "compileBuilder"}, {"dnsdata/rdb", "compileBatches"}, {"dnsdata/cdb", "CreateCDBFromReader"}} {
@@ -719,7 +825,7 @@ func c07BatchRebind(c *Ctx) {
 					}
 				}
 			}
-			c.Check(rule, fnName(fn)+"|batch-replaced-after-handoff", ok, ci.Pos(), "appending to a batch that a goroutine is executing loses or duplicates records")
+			c.Check(rule, stableFnName(fn)+"|batch-replaced-after-handoff", ok, ci.Pos(), "appending to a batch that a goroutine is executing loses or duplicates records")
 		}
 	}
 	if n == 0 {
@@ -1278,4 +1384,30 @@ func closureCallee(ci ssa.CallInstruction) *ssa.Function {
 		out = f
 	}
 	return out
+}
+
+
+// stableFnName names function literals by their parent and the position among the parent's literals that call
+// error-returning functions the same way, so that adding an unrelated literal does not rename obligations:
+// parent + "$" + role/first callee.
+func stableFnName(fn *ssa.Function) string {
+	if fn.Parent() == nil {
+		return fnName(fn)
+	}
+	role := closureRole(fn)
+	first := ""
+	for _, ci := range callInstrs(fn) {
+		if f := calleeOf(ci.Common()); f != nil {
+			rs := ci.Common().Signature().Results()
+			for i := 0; i < rs.Len(); i++ {
+				if isErrorType(rs.At(i).Type()) && first == "" {
+					first = f.Name()
+				}
+			}
+		}
+	}
+	if role == "" {
+		role = "func"
+	}
+	return stableFnName(fn.Parent()) + "$" + role + ":" + first
 }
